@@ -193,10 +193,46 @@ def gen_pair(ka, kb, rnd):
         A, B = sa, sb
     else:
         A, B = sb, sa
+    if {ka, kb} <= {"Polygon", "Footprint"} and rnd.random() < 0.5:
+        hug(A, B, rnd, c, s)
     for spec in (A, B):
         if spec["kind"] in LAZY_OK and rnd.random() < 0.15:
             spec["lazy"] = True
     return A, B
+
+
+def hug(A, B, rnd, c, s):
+    """Re-shape two polygonal operands so that they overlap in area *and* share a stretch of
+    boundary outside the overlap (a step-shaped B hugging one side of a rectangle A while
+    covering one of its corners): the exact intersection is then a polygon plus a line.
+    Coordinates are multiples of 1/8 and the shared side is axis-parallel, so the contact is
+    exact in floating point."""
+    q = lambda v: round(v * 8) / 8
+    w, h = q(s * rnd.uniform(0.5, 1.2)) + 0.5, q(s * rnd.uniform(0.5, 1.2)) + 0.5
+    a, b = q(w * rnd.uniform(0.2, 0.7)) + 0.125, q(s * rnd.uniform(0.3, 0.9)) + 0.25
+    m = q(h * rnd.uniform(0.25, 0.7)) + 0.125
+    # local frame: A = [0, w] x [0, h]; B covers [w - a, w] x [0, m] and hugs x = w above m
+    rect = [(0, 0), (w, 0), (w, h), (0, h)]
+    step = [(w - a, 0), (w + b, 0), (w + b, h), (w, h), (w, m), (w - a, m)]
+    turn = rnd.randrange(4)
+    flip = rnd.random() < 0.5
+    ox, oy = q(c[0]), q(c[1])
+
+    def place(pts):
+        out = []
+        for x, y in pts:
+            if flip:
+                y = h - y
+            for _ in range(turn):
+                x, y = -y, x
+            out.append([ox + x, oy + y])
+        return out
+
+    A["poly"] = [[place(rect), []]]
+    B["poly"] = [[place(step), []]]
+    if "z" in A and "z" in B:
+        B["z"] = A["z"]
+    A["hug"] = B["hug"] = True
 
 
 # ------------------------------------------------------------------------------------------
